@@ -45,7 +45,10 @@ Fixpoint bwalk (dem : bool) (n : node) (st : bst) {struct n} : bst * list site :
     if is_store c then (bind id st, []) else (st, mk_site id p st (dem && is_load c))
   | EAttr v _ c _ | EStar v c _ =>
     let here := if is_store c then [] else mk_site (spell_base n) (pos_of n) st (dem && is_load c) in
-    let '(s1, a) := if is_nameable v then binner dem v st else bwalk dem v st in
+    let '(s1, a) := match n, v with
+                    | EStar _ Store _, EName id _ _ => (bind id st, [])      (* `a, *rest = xs` binds rest *)
+                    | _, _ => if is_nameable v then binner dem v st else bwalk dem v st
+                    end in
     (match n with EStar _ Store _ => s1 | _ => st end, here ++ a)
   | ESub v sl c _ =>
     let here := if is_store c then [] else mk_site (spell_base n) (pos_of n) st (dem && is_load c) in
